@@ -72,8 +72,16 @@ const tornBase = 0x7ead0000
 func newRing(elem, req int) (ringAPI, *ringz.SyncRing[int]) {
 	switch elem {
 	case 1:
-		return &ringOf[string]{r: ringz.NewSync[string](req), enc: func(v int) string { return "v" + strconv.Itoa(v) },
+		return &ringOf[string]{r: ringz.NewSync[string](req), enc: func(v int) string {
+			if v == 0 {
+				return "" // value 0 stands for the zero value of the element type: an element like any other
+			}
+			return "v" + strconv.Itoa(v)
+		},
 			dec: func(s string) int {
+				if s == "" {
+					return 0
+				}
 				n, err := strconv.Atoi(strings.TrimPrefix(s, "v"))
 				if err != nil || !strings.HasPrefix(s, "v") {
 					return tornBase + len(s)
@@ -81,26 +89,47 @@ func newRing(elem, req int) (ringAPI, *ringz.SyncRing[int]) {
 				return n
 			}}, nil
 	case 2:
-		return &ringOf[triple]{r: ringz.NewSync[triple](req), enc: func(v int) triple { return triple{v, ^int64(v), uint64(v) * 3} },
+		return &ringOf[triple]{r: ringz.NewSync[triple](req), enc: func(v int) triple {
+			if v == 0 {
+				return triple{}
+			}
+			return triple{v, ^int64(v), uint64(v) * 3}
+		},
 			dec: func(t triple) int {
+				if t == (triple{}) {
+					return 0
+				}
 				if t.B != ^int64(t.A) || t.C != uint64(t.A)*3 {
 					return tornBase + 1000 + t.A&0xff
 				}
 				return t.A
 			}}, nil
 	case 3:
-		return &ringOf[*int]{r: ringz.NewSync[*int](req), enc: func(v int) *int { return &v },
+		return &ringOf[*int]{r: ringz.NewSync[*int](req), enc: func(v int) *int {
+			if v == 0 {
+				return nil
+			}
+			return &v
+		},
 			dec: func(p *int) int {
 				if p == nil {
-					return tornBase + 2000
+					return 0
 				}
 				return *p
 			}}, nil
 	case 4:
-		return &ringOf[any]{r: ringz.NewSync[any](req), enc: func(v int) any { return v },
+		return &ringOf[any]{r: ringz.NewSync[any](req), enc: func(v int) any {
+			if v == 0 {
+				return nil
+			}
+			return v
+		},
 			dec: func(x any) int {
 				if n, ok := x.(int); ok {
 					return n
+				}
+				if x == nil {
+					return 0
 				}
 				return tornBase + 3000
 			}}, nil
@@ -301,6 +330,7 @@ func gen(r *sim.Rng, tier string) *sim.Case {
 	c.Params["scenario"] = scen
 	w := []int{r.Range(1, 6), r.Range(1, 6), r.Range(0, 2), r.Range(0, 1), r.Range(0, 1), r.Range(0, 2), r.Range(0, 2)}
 	total := 0
+	zeroPushed := false
 	for t := 0; t < nT; t++ {
 		n := r.Range(1, maxOps)
 		if scen != 0 {
@@ -317,6 +347,9 @@ func gen(r *sim.Rng, tier string) *sim.Case {
 			op := sim.Op{Op: opNames[k]}
 			if k == 0 || k == 5 {
 				op.V = (t+1)<<8 | (i + 1)
+				if !zeroPushed && r.Pct(4) {
+					op.V, zeroPushed = 0, true // the zero value of the element type (0, "", nil, struct{}) is an element like any other
+				}
 			}
 			if k == 5 || k == 6 {
 				op.D = []int{0, 5, 10, 25, 60, -1}[r.N(6)]
